@@ -68,3 +68,58 @@ func waveWrites(c *rig.Ctx) {
 		c.DistinctOnly(rig.Hash(uint64(i), 0x3a3e))
 	})
 }
+
+// veryLong: the 95-clock sample grid does not depend on how long the sound hardware has been
+// running. Sound stays on and a note plays while the APU is stepped for more than 2^30 machine
+// cycles (2^32 clocks; thorough tier - the quick tier runs 2^23 cycles to keep the part alive):
+// every window of 95 machine cycles (380 clocks) must deliver exactly four sample pairs.
+func veryLong(c *rig.Ctx) {
+	c.Require("very_long_cycles")
+	c.Part("very-long", 1, func(i int64, r *rig.Rng) {
+		m := rig.MustNew(rig.BlankROM(0, 0, 0), rig.Opts{AudioOut: true})
+		w := m.Mem.Write
+		w(0xff26, 0x80)
+		w(0xff24, 0x77)
+		w(0xff25, 0xff)
+		w(0xff12, 0xf0)
+		w(0xff13, 0x00)
+		w(0xff14, 0x87)
+		total := int64(1) << 23
+		if c.Thorough() {
+			total = int64(1)<<30 + int64(1)<<22
+		}
+		drain := func() int {
+			n := 0
+			for {
+				select {
+				case <-m.L:
+					<-m.R
+					n++
+					continue
+				default:
+				}
+				return n
+			}
+		}
+		// align the windows with the grid: step until a sample arrives
+		for k := 0; k < 200 && drain() == 0; k++ {
+			m.Audio.EndMachineCycle()
+		}
+		inWindow := 0
+		for t := int64(1); t <= total; t++ {
+			m.Audio.EndMachineCycle()
+			inWindow += drain()
+			// (window boundaries lie about twelve cycles after a sample, so that a pair arriving
+			// a little early or late moves from one window into the next)
+			if t%95 == 12 && t > 95 {
+				if inWindow != 4 {
+					c.Violate("sample-grid-after-a-long-time", fmt.Sprintf("sound on without interruption: the 95-cycle window ending %d machine cycles after the first sample delivered %d sample pairs, expected 4", t, inWindow), nil)
+					return
+				}
+				inWindow = 0
+			}
+		}
+		c.Count("very_long_cycles", total)
+		c.Exact(1)
+	})
+}
